@@ -2,6 +2,7 @@
 import json
 import multiprocessing as mp
 import os
+import subprocess
 import time
 import traceback
 import warnings
@@ -12,11 +13,11 @@ from harness import c11_lib, c11_check, ops_common as oc
 PROP = 'C11'
 MODEL_MODULES = ['TenpyModel.Util.J', 'TenpyModel.Ops.Sym', 'TenpyModel.Ops.Terms', 'TenpyModel.Ops.Graph',
                  'TenpyModel.Ops.MPO', 'TenpyModel.C11.ExtEnv', 'TenpyModel.C11.ExtStruct', 'TenpyModel.C11.ExtDecide',
-                 'TenpyModel.C11.ExtTerms']
+                 'TenpyModel.C11.ExtTerms', 'TenpyModel.C11.ExtFlag']
 PROPS_MODULES = ['TenpyModel.C11.Props',
                  'TenpyModel.C11.Props2',
                  'TenpyModel.C11.PropsExtEnv', 'TenpyModel.C11.PropsExtStruct', 'TenpyModel.C11.PropsExtDecide',
-                 'TenpyModel.C11.PropsExtTerms', 'TenpyModel.C11.PropsExtGQ']
+                 'TenpyModel.C11.PropsExtTerms', 'TenpyModel.C11.PropsExtFlag', 'TenpyModel.C11.PropsExtGQ']
 LEAN_MODULES = PROPS_MODULES
 LEVEL = 'proof'
 BUDGET = {'quick': 200, 'thorough': 1500}
@@ -181,9 +182,14 @@ def work_chunk(args):
     if use_model and reqs:
         _mem_limit(False)   # the Lean runtime reserves a large address space
         try:
-            louts = core.run_driver('C11', reqs)
+            louts = core.run_driver('C11', reqs, timeout=DRIVER_TIMEOUT)
         except core.DriverError as e:
             louts = [{'error': 'driver: ' + str(e)[:400]}] * len(reals)
+        except subprocess.TimeoutExpired:
+            # infrastructure (e.g. `lake env` blocked by a build lock): the cases of this chunk are skipped and counted
+            for n in idx:
+                out[n]['skipped'] = 'infra:driver-timeout'
+            reals, idx, louts = [], [], []
         _mem_limit(True)
     for n, real, lo in zip(idx, reals, louts):
         rec = out[n]
@@ -204,6 +210,26 @@ def work_chunk(args):
     return out
 
 
+DRIVER_TIMEOUT = 300          # seconds for one driver call of a chunk (a blocked `lake env` must not stall the run)
+
+
+def work_chunk_safe(args):
+    """work_chunk that never raises and returns only plain data (strings, lists, dicts): an exception inside a worker
+    becomes an infrastructure record for the cases of the chunk"""
+    cases, _ = args
+    try:
+        out = work_chunk(args)
+        json.dumps([(r.get('skipped'), r['fails']) for r in out], default=str)   # picklable / plain
+        return out
+    except BaseException as e:  # noqa: BLE001
+        msg = f'{type(e).__name__}: {str(e)[:300]}'
+        return [{'case': c, 'fails': [], 'facts': {}, 'skipped': 'infra:worker-exception', 'infra': msg} for c in cases]
+
+
+def _infra(chunk, why):
+    return [{'case': c, 'fails': [], 'facts': {}, 'skipped': 'infra:' + why} for c in chunk]
+
+
 def run_cases(ctx, cases, use_model=True, res=None):
     res = res or core.Result()
     if not cases:
@@ -211,16 +237,37 @@ def run_cases(ctx, cases, use_model=True, res=None):
     nproc = max(1, min(N_PROCS, len(cases) // 4 or 1))
     chunks = [cases[i::nproc] for i in range(nproc)]
     if nproc == 1:
-        outs = [work_chunk((chunks[0], use_model))]
+        outs = [work_chunk_safe((chunks[0], use_model))]
     else:
-        from concurrent.futures import ProcessPoolExecutor
-        with ProcessPoolExecutor(nproc, mp_context=mp.get_context('fork')) as pool:
-            outs = list(pool.map(work_chunk, [(c, use_model) for c in chunks], timeout=max(600, ctx.budget_s)))
+        # apply_async + get(timeout): a worker that died (OOM kill) or hangs (blocked subprocess) costs its chunk, which is
+        # counted as an infrastructure error, and the pool is terminated — the parent never waits without a deadline
+        per_task = max(240.0, 12.0 * max(len(c) for c in chunks)) + (DRIVER_TIMEOUT if use_model else 0)
+        pool = mp.get_context('fork').Pool(nproc)
+        outs = []
+        try:
+            t0 = time.time()
+            asyncs = [pool.apply_async(work_chunk_safe, ((c, use_model),)) for c in chunks]
+            for a, chunk in zip(asyncs, chunks):
+                try:
+                    outs.append(a.get(timeout=max(1.0, t0 + per_task - time.time())))
+                except mp.TimeoutError:
+                    outs.append(_infra(chunk, 'worker-timeout-or-died'))
+                except Exception as e:  # noqa: BLE001
+                    outs.append(_infra(chunk, 'worker-error.' + type(e).__name__))
+        finally:
+            pool.terminate()
+            pool.join()
     for chunk in outs:
         for rec in chunk:
             case = rec['case']
             if rec['skipped']:
                 res.count('skipped=' + rec['skipped'])
+                if str(rec['skipped']).startswith('infra:'):
+                    res.extra['infra_errors'] = res.extra.get('infra_errors', 0) + 1
+                    if rec.get('infra'):
+                        res.extra.setdefault('infra_messages', [])
+                        if len(res.extra['infra_messages']) < 5 and rec['infra'] not in res.extra['infra_messages']:
+                            res.extra['infra_messages'].append(rec['infra'])
                 continue
             api = case.get('kind') == 'api'
             ext = case.get('kind') == 'ext'
